@@ -127,6 +127,9 @@ type Stream struct {
 	Enum     func(tier string, yield func(Case)) // optional exhaustive enumeration
 	EnumExhaustive bool
 	Parallel int // >0: Run() is called from that many goroutines
+	BatchRun func(cases []Case) []string // optional: run all cases at once (child-process pools)
+	ShrinkBudget int // evaluations per failing case (default 400)
+	MaxShrinks   int // failing cases shrunk per stream (default 60)
 	Rule     string
 }
 
@@ -375,7 +378,9 @@ func runStream(p *Property, st *Stream, d *Driver, tier string, seed uint64, rep
 
 	// implementation side
 	impl := make([]string, len(cases))
-	if st.Parallel > 1 {
+	if st.BatchRun != nil {
+		impl = st.BatchRun(cases)
+	} else if st.Parallel > 1 {
 		var wg sync.WaitGroup
 		ch := make(chan int)
 		for w := 0; w < st.Parallel; w++ {
@@ -471,11 +476,18 @@ func runStream(p *Property, st *Stream, d *Driver, tier string, seed uint64, rep
 		if f.model != f.impl {
 			sr.Disagreements++
 		}
-		if len(res.Violations) >= 40 || shrunk >= 60 {
+		maxShrinks, budget := 60, 400
+		if st.MaxShrinks > 0 {
+			maxShrinks = st.MaxShrinks
+		}
+		if st.ShrinkBudget > 0 {
+			budget = st.ShrinkBudget
+		}
+		if len(res.Violations) >= 40 || shrunk >= maxShrinks {
 			continue
 		}
 		shrunk++
-		g := shrink(d, f, 400)
+		g := shrink(d, f, budget)
 		key := caseKey(st.Name, g.c) + "|" + kind
 		if seenKeys[key] {
 			continue
